@@ -16,6 +16,12 @@ CHECKS = {
  "C11": dict(cat="model_checking", engine="C", technique=ENGINE_C,
    text="All reachable quiescent states of an Event and of a Condition (3 tasks; acquire/release/wait/notify(n)/notify_all with and without the lock, cancellations incl. in the notifying cycle) with every in-cycle event pair; transitions explained by a FIFO lock + FIFO wait-queue automaton with explicit pass-the-notification-on rule.",
    note="Trusted: VLoop batching model. A native Task.cancel() landing during the shielded re-acquire at the end of wait() legitimately loses the lock/notification (asyncio limitation) and is accepted by the oracle."),
+ "C12": dict(cat="model_checking", engine="C", technique=ENGINE_C,
+   text="Reachable quiescent states of a real memory object stream (buffer sizes 0/1; thorough 2/inf and clones) driven by 2 sender and 2 receiver tasks with fresh items, depth-bounded BFS plus all in-cycle event pairs (send/receive/_nowait, entered cancelled, AnyIO cancel); a FIFO-channel reference automaton (powerset simulation) must explain every return value, so each accepted item is delivered exactly once, in order, the buffer bound holds and cancelled receives consume nothing.",
+   note="Trusted: VLoop batching model; AnyIO-scope cancellation only (DESIGN O4); BFS is depth-capped (cap reported in evidence)."),
+ "C13": dict(cat="model_checking", engine="C", technique=ENGINE_C,
+   text="Same engine and automaton as C12 with clone()/close() on up to 2+2 handles (also closing handles that have blocked peers or blocked users): EndOfStream / BrokenResourceError / ClosedResourceError must be exactly those the reference predicts, closing the last clone must wake every blocked peer, open-stream counts must match.",
+   note="Trusted: VLoop batching model; depth-capped BFS (cap reported)."),
 }
 
 def main():
